@@ -28,6 +28,7 @@ RULES_DOC["R4"] = "= C06.R2: a waiter released by the last arriver is pushed bef
 RULES_DOC["X6"] = common.X6_DOC
 RULES_DOC["R5"] = "= C06.R1/R3/R4: a waiter that blocks in the barrier is counted on the pool it will be resumed on"
 RULES_DOC["R7"] = "= C06.R5: a scheduler does not stop while a unit of one of its pools is blocked (for every shared access mode): the stream a barrier waiter will be pushed back to is still consuming the pool when the last arriver releases it"
+RULES_DOC["R9"] = "= C07.R10: ABT_pool_get_total_size counts the waiters blocked in the barrier: a user scheduler that leaves at total size 0 is still there when the last arriver pushes them back"
 RULES_DOC["R8"] = "= C06.R9: pool reference counts are exact (ABTI_sched_has_unit trusts num_scheds == 1 before it looks at num_blocked)"
 RULES_DOC["R6"] = "= C17.R10: an OS thread that gave up its stream (ABT_finalize) is an external thread afterwards -- the barrier picks the external-waiter path from the thread-local stream pointer"
 RULES_DOC.update({
@@ -248,3 +249,5 @@ def run(P, rep, tier):
     common.borrow(rep, P, C06.rule_R5, "R7")
     from . import c06_refs
     common.borrow(rep, P, c06_refs.rule_R9, "R8")
+    from . import C07
+    common.borrow(rep, P, C07.rule_R10, "R9")
